@@ -68,7 +68,7 @@ ASSUMPTIONS = [
     "blanks (finding C15-name-blanks)",
 ]
 
-F_DIGITS = "C15-poly-16-digits"
+F_DIGITS = "C15-poly-17-digits"
 F_EQUALS = "C15-name-equals"
 F_BLANKS = "C15-name-blanks"
 
